@@ -309,7 +309,7 @@ def scenarios_c15(r, tier):
             for kind, content in bad:
                 files = {}
                 for i in range(nfiles):
-                    files['f%d.py' % i] = content if i == pos else good[i % len(good)]
+                    files['f%d.py' % i] = content if i == pos else good[(i + 3 * pos + 2 * nfiles) % len(good)]
                 out.append({'paths': sorted(files), 'files': files, 'flags': ['--in-place'], 'fail': kind})
                 dfiles = {'d/' + k: v for k, v in files.items()}
                 dfiles['d/notes.txt'] = b'not python  =  1\n'
@@ -322,7 +322,7 @@ def scenarios_c15(r, tier):
                 break
     # no failure: nested dirs, symlinks to a file and to a directory, several path arguments
     tree = {'p/a.py': good[0], 'p/b.txt': b'text  =  1', 'p/q/c.pyw': good[1], 'p/q/r/d.py': good[2], 'p/Makefile': b'all:\n\tpass\n',
-            'p/q/e.py.bak': b'k  =  1\n', 'x.py': good[3], 'outside/z.py': good[0], 'p/ln.py': ('link', '../outside/z.py'), 'p/lnd': ('link', '../outside')}
+            'p/q/e.py.bak': b'k  =  1\n', 'p/legacy.py': COOKIE_SRC, 'p/q/legacy_window.pyw': COOKIE2_SRC, 'p/q/r/utf8.py': good[6], 'p/bom.py': good[7], 'x.py': good[3], 'outside/z.py': good[0], 'p/ln.py': ('link', '../outside/z.py'), 'p/lnd': ('link', '../outside')}
     out.append({'paths': ['p', 'x.py'], 'files': tree, 'flags': ['--in-place']})
     out.append({'paths': ['p'], 'files': tree, 'flags': ['--in-place', '--rename-globals']})
     out.append({'paths': ['x.py'], 'files': tree, 'flags': [], 'output': 'o.py'})
